@@ -125,6 +125,7 @@ func runC15(c *Ctx) {
 	c15AtomicWriter(c)
 	c15AtomicOption(c)
 	c15GenFlush(c)
+	ruleOpenTruncates(c, "OPEN-TRUNCATES")
 	// the module cache's archive object is requested atomically (shared with C09 MARKER-ATOMIC)
 	c.Rule("ATOMIC-REQUESTED", "objects whose presence means \"complete\" to a reader are written with the atomic option", 1)
 	if pkStore := c.P.Pkg("private/bufpkg/bufmodule/bufmodulestore"); pkStore != nil {
